@@ -34,6 +34,9 @@ depend on formula text.  Correspondence for them:
   * `rwo`: for every OCCURRENCE of a name that sits directly in an inlined comprehension (Python >= 3.12) the
     scopes around it up to the first one with a symbol table (own `ast` analysis) and whether the exporter rewrote
     that occurrence must agree with `MxModel.Export.shouldReplaceAt` (the climb `classify`);
+  * `rsv`: for probe cells `lambda: <name>` whose name is an ItemSpace parameter named like a built-in, reached with
+    some / all / none of the parametrised levels called: member, built-in or nothing on both sides as
+    `MxModel.Export.exportedResolveAt` / `mxResolveAt` say (static access: the class-level `k = k` lines);
   * `look`: for probe cells `lambda: <name>` in (nested) parametrised spaces, the value found
     by the exported instance and by modelx must be the entry `exportedLookup` / `mxLookup`
     select;
@@ -659,6 +662,67 @@ def look_line(desc, m, q, name):
     return "look %s g=%s | %s" % (name, _int_env(g), " | ".join(parts))
 
 
+def derive_levels(desc, q):
+    """`_path` / `_levels` of a query that was written by hand (corpus, families): from its steps"""
+    by_path = dict(W.iter_spaces(desc))
+    path, levels = (), []
+    for st in q["sp"]:
+        if "attr" in st:
+            path = path + (st["attr"],)
+            if path not in by_path:
+                return None
+            levels.append({"path": path, "args": None})
+        else:
+            f = by_path[path].get("formula")
+            if not f or isinstance(f, str) or not levels or levels[-1]["args"] is not None:
+                return None
+            vals = [R.uncanon(a) for a in st["item"]]
+            if st.get("via") == "kw":
+                given = dict(zip(st["names"], vals))
+            else:
+                given = dict(zip([p_ for p_, _d in f], vals))
+            levels[-1]["args"] = [given.get(p_, d_) for p_, d_ in f]
+    return list(path), levels
+
+
+def rsv_line(desc, m, q, name):
+    """driver line for a probe `lambda: <name>` whose name is a PARAMETER named like a built-in (and nothing else in
+    the space): which of the visible parameters have a value on this access path, or None"""
+    if name not in G.ALL_BUILTINS:
+        return None
+    by_path = dict(W.iter_spaces(desc))
+    levels = q["_levels"]
+    static = W._get(m, ".".join(levels[-1]["path"]))
+    cells = list(static.cells.keys())
+    refs = [k for k in static.refs.keys() if k[0] != "_"]
+    spaces = list(static.spaces.keys())
+    params, bound = [], []
+    for lvl in reversed(levels):
+        f = by_path[tuple(lvl["path"])].get("formula")
+        if f and not isinstance(f, str):
+            for p_, _d in f:
+                if p_ not in params:
+                    params.append(p_)
+                if lvl["args"] is not None and p_ not in bound:
+                    bound.append(p_)
+    if name not in params or name in cells or name in refs or name in spaces:
+        return None
+    return "rsv %s bound=%s cells=%s refs=%s spaces=%s params=%s" % (
+        name, ",".join(bound), ",".join(cells), ",".join(refs), ",".join(spaces), ",".join(params))
+
+
+def target_of(r):
+    """member / builtin / unbound as far as a probe's result shows it (a parameter's value is an int)"""
+    k = res_of(r)
+    if k.startswith("val") or k == "cells":
+        return "member"
+    if k == "unbound":
+        return "unbound"
+    if k == "other":
+        return "builtin"
+    return None
+
+
 def _declares(desc, path, name):
     by_path = dict(W.iter_spaces(desc))
 
@@ -701,6 +765,7 @@ class Case:
         self.rw = []
         self.rwo = []
         self.look = []
+        self.rsv = []
         self.refval = []
 
 
@@ -748,6 +813,13 @@ def prepare(case, rng, tmp, stats, fixed_queries=None):
         except Exception as e:      # noqa: BLE001
             stats["refval_extraction_failed"] = stats.get("refval_extraction_failed", 0) + 1
         for qi, q in enumerate(case.queries):
+            if "_levels" not in q and not (q.get("kw") or q.get("args")):
+                try:
+                    dl = derive_levels(desc, q)
+                except Exception:       # noqa: BLE001
+                    dl = None
+                if dl:
+                    q = case.queries[qi] = dict(q, _path=dl[0], _levels=dl[1])
             if "_levels" not in q or q.get("kw") or q.get("args"):
                 continue
             src = _find_src(desc, q["_path"], q["cells"])
@@ -759,6 +831,12 @@ def prepare(case, rng, tmp, stats, fixed_queries=None):
                     line = None
                 if line:
                     case.look.append((qi, line))
+                try:
+                    line = rsv_line(desc, m, q, nm)
+                except Exception:       # noqa: BLE001
+                    line = None
+                if line:
+                    case.rsv.append((qi, line))
         return True
     finally:
         close_all()
@@ -857,6 +935,10 @@ def run_batch(ctx, cases, out, stats, samples, rngs=None, fixed=None):
                     if qi < len(rec["results"]):
                         driver_lines.append(line)
                         driver_meta.append(("look", case, (case.expected[qi], rec["results"][qi]), qi))
+                for qi, line in case.rsv:
+                    if qi < len(rec["results"]):
+                        driver_lines.append(line)
+                        driver_meta.append(("rsv", case, (case.expected[qi], rec["results"][qi]), qi))
         if driver_lines:
             model_out = core.run_driver("export", driver_lines)
             for line, meta, mo in zip(driver_lines, driver_meta, model_out):
@@ -872,6 +954,21 @@ def run_batch(ctx, cases, out, stats, samples, rngs=None, fixed=None):
                     stats["rwo_" + mo] = stats.get("rwo_" + mo, 0) + 1
                     if obs != mo:
                         out.disagree({"desc": case.desc, "line": line, "where": where}, 0, obs, mo, layer="export")
+                elif kind == "rsv":
+                    exp_m, got_e = obs
+                    parts = dict(p.split("=", 1) for p in mo.split(" ") if "=" in p)
+                    tm, te = target_of(exp_m), target_of(got_e)
+                    if tm is None or te is None:
+                        stats["rsv_skipped_error"] = stats.get("rsv_skipped_error", 0) + 1
+                        continue
+                    stats["rsv_decisions"] = stats.get("rsv_decisions", 0) + 1
+                    stats["rsv_" + parts.get("mx", "?")] = stats.get("rsv_" + parts.get("mx", "?"), 0) + 1
+                    if te != parts.get("exp"):
+                        out.disagree({"desc": case.desc, "line": line, "query": public(case.queries[where])}, 0,
+                                     "exported " + te, mo, layer="export")
+                    elif tm != parts.get("mx"):
+                        out.disagree({"desc": case.desc, "line": line, "query": public(case.queries[where])}, 0,
+                                     "modelx " + tm, mo, layer="export")
                 elif kind == "refval":
                     stats["refval_decisions"] += 1
                     pred = {"none": "literal"}.get(mo, mo)      # an invalidated modelx object is written as `None`
@@ -1051,7 +1148,7 @@ def run(ctx, out):
     samples = []
     features = {}
     profiles = {}
-    n_models = int(os.environ.get("VERIF_C15_MODELS") or 0) or ctx.n(80, 1500)
+    n_models = int(os.environ.get("VERIF_C15_MODELS") or 0) or ctx.n(70, 1500)
     batch = 12
     idx = 0
     tasks = []          # (phase, (ctx, cases, rngs, fixed))
@@ -1083,7 +1180,7 @@ def run(ctx, out):
     # thorough tier), plus a seed-dependent tail of random scope expressions
     scope_formulas = 0
     if not os.environ.get("VERIF_C15_NO_SCOPE"):
-        fam = S.family(ctx.rng("scope"), n_random=ctx.n(34, 510), per_template=ctx.n(3, None), rotation=ctx.seed)
+        fam = S.family(ctx.rng("scope"), n_random=ctx.n(17, 510), per_template=ctx.n(3, None), rotation=ctx.seed)
         for label, d, qs in fam:
             d = dict(d, name="S%d" % idx)
             scope_formulas += len(qs)
